@@ -131,7 +131,7 @@ class SpinTimeout(BaseException):
     reaches it).  The worlds turn it into a livelock verdict of that execution."""
 
 
-SPIN_LIMIT = 12.0      # seconds of CPU time of the worker process for ONE execution (ordinary executions take milliseconds)
+SPIN_LIMIT = 30.0      # seconds of CPU time of the worker process for ONE execution (ordinary executions take milliseconds)
 
 
 _SPINS = [0]
